@@ -380,6 +380,76 @@ def _error_type_installed(parse: ast.FunctionDef) -> tuple[bool, list[str]]:
     return ok, trace
 
 
+CHUNK_STATE = ('_char_index', '_cur_chunk', '_chunk_iter')
+
+
+def _strip_doc_stmts(body: list[ast.stmt]) -> list[ast.stmt]:
+    if body and isinstance(body[0], ast.Expr) and isinstance(body[0].value, ast.Constant) and isinstance(body[0].value.value, str):
+        return list(body[1:])
+    return list(body)
+
+
+def _reader_discipline(ttree: ast.Module) -> tuple[list[int], list[int], list[int], list[str]]:
+    """The premise of the chunk-independence theorem (Text/Prog.v: a reader program sees the input only through reads and a
+    push-back directly after a read): outside `__init__` and `_next_char`, the methods of `Tokenizer` must not touch the
+    chunk state (`_cur_chunk`, `_char_index`, `_chunk_iter`) except by the statement `self._char_index -= 1`, and between two
+    such push-backs (in source order, inside one function) there must be a call of `self._next_char()`.
+    Returns (lines of foreign accesses, lines of the push-backs, lines of push-backs not preceded by a read, functions seen)."""
+    cls = next((n for n in ttree.body if isinstance(n, ast.ClassDef) and n.name == 'Tokenizer'), None)
+    if cls is None:
+        raise TranslateError('class Tokenizer not found')
+    foreign: list[int] = []
+    pushes: list[int] = []
+    unread: list[int] = []
+    funcs: list[str] = []
+
+    def is_push(n: ast.AST) -> bool:
+        return isinstance(n, ast.AugAssign) and isinstance(n.op, ast.Sub) and ast.unparse(n.target) == 'self._char_index' \
+            and isinstance(n.value, ast.Constant) and type(n.value.value) is int and n.value.value == 1
+
+    # one-statement helpers extracted from these functions: `def _unread(self): self._char_index -= 1` counts as a push-back at its
+    # call sites, `def _peek(self): return self._next_char()` as a read
+    helper_kind: dict[str, str] = {}
+    for f in cls.body:
+        if isinstance(f, ast.FunctionDef) and f.name not in ('__init__', '_next_char') and len(f.args.args) == 1 and not f.decorator_list:
+            body = _strip_doc_stmts(f.body)
+            if len(body) == 1 and is_push(body[0]):
+                helper_kind[f.name] = 'push'
+            elif len(body) == 1 and isinstance(body[0], ast.Return) and body[0].value is not None and ast.unparse(body[0].value) == 'self._next_char()':
+                helper_kind[f.name] = 'read'
+    for f in cls.body:
+        if not isinstance(f, (ast.FunctionDef, ast.AsyncFunctionDef)) or f.name in ('__init__', '_next_char'):
+            continue
+        funcs.append(f.name)
+        if helper_kind.get(f.name) == 'push':
+            pushes.append(f.lineno)
+            continue
+        ok_nodes: set[int] = set()
+        events: list[tuple[int, int, str]] = []           # (line, column, 'read' | 'push')
+        for n in ast.walk(f):
+            if isinstance(n, ast.AugAssign) and isinstance(n.op, ast.Sub) and ast.unparse(n.target) == 'self._char_index' \
+                    and isinstance(n.value, ast.Constant) and type(n.value.value) is int and n.value.value == 1:
+                ok_nodes.add(id(n.target))
+                events.append((n.lineno, n.col_offset, 'push'))
+                pushes.append(n.lineno)
+            elif isinstance(n, ast.Call) and ast.unparse(n.func) == 'self._next_char':
+                events.append((n.lineno, n.col_offset, 'read'))
+            elif isinstance(n, ast.Call) and isinstance(n.func, ast.Attribute) and isinstance(n.func.value, ast.Name) and n.func.value.id == 'self' \
+                    and n.func.attr in helper_kind and not n.args and not n.keywords:
+                events.append((n.lineno, n.col_offset, helper_kind[n.func.attr]))
+        for n in ast.walk(f):
+            if isinstance(n, ast.Attribute) and n.attr in CHUNK_STATE and id(n) not in ok_nodes:
+                foreign.append(n.lineno)
+            elif isinstance(n, ast.Constant) and isinstance(n.value, str) and n.value in CHUNK_STATE:
+                foreign.append(n.lineno)                  # getattr(self, '_cur_chunk') and the like
+        last = 'push'                                     # a push-back before any read of the function is not preceded by a read
+        for _ln, _col, ev in sorted(events):
+            if ev == 'push' and last == 'push':
+                unread.append(_ln)
+            last = ev
+    return sorted(foreign), sorted(pushes), sorted(unread), funcs
+
+
 def _coq_str(s: str) -> str:
     return '[' + '; '.join(str(ord(c)) for c in s) + ']%N'
 
@@ -529,6 +599,7 @@ def translate() -> tuple[str, dict]:
         parse_bad_raises += bad
 
     et_ok, et_trace = _error_type_installed(parse)
+    rd_foreign, rd_pushes, rd_unread, rd_funcs = _reader_discipline(ttree)
 
     allsites = sites_f + sites_p
     lines = [
@@ -561,6 +632,11 @@ def translate() -> tuple[str, dict]:
         '(* the tokenizer Keyvalues.parse iterates over has error_type = KeyValError on every path to the loop *)',
         f'Definition kv_error_type_installed : bool := {_b(et_ok)}.',
         'Definition kv_foreign_raises : list N := [' + '; '.join(map(str, parse_bad_raises)) + '].',
+        '(* reader discipline of class Tokenizer outside __init__/_next_char: lines that touch _cur_chunk/_char_index/_chunk_iter other than',
+        '   by `self._char_index -= 1`; lines of these push-backs; push-backs with no self._next_char() since the previous one *)',
+        'Definition tok_chunk_state_foreign_accesses : list N := [' + '; '.join(map(str, rd_foreign)) + '].',
+        'Definition tok_pushback_sites : list N := [' + '; '.join(map(str, rd_pushes)) + '].',
+        'Definition tok_pushbacks_without_read : list N := [' + '; '.join(map(str, rd_unread)) + '].',
         '(* every .error(<literal>, args...) call: (line, positional fields the literal needs, arguments passed) *)',
         'Definition error_format_calls : list (N * N * N) := [' + '; '.join(f'({ln}, {need}, {na})' for _f, ln, need, na in ecalls) + '].',
         '',
@@ -573,6 +649,7 @@ def translate() -> tuple[str, dict]:
                 tokenizer_raises=dict(through_error=tok_raises, by_design=tok_design, foreign_lines=tok_bad_raises),
                 parse_raises=dict(typed=pg, foreign_lines=parse_bad_raises),
                 error_type_installed=et_ok, error_type_trace=et_trace,
+                reader_discipline=dict(foreign_access_lines=rd_foreign, pushback_lines=rd_pushes, pushbacks_without_read=rd_unread, functions=rd_funcs),
                 error_calls=len(ecalls),
                 error_calls_bad=[f'{f}:{ln} needs {need} has {na}' for f, ln, need, na in ecalls if need > na])
     return '\n'.join(lines), side
